@@ -1,4 +1,5 @@
 use crate::net::EventLoops;
+use crate::syscall::set_errno;
 use libc::{fd_set, timeval};
 use std::ffi::c_int;
 use std::time::Duration;
@@ -59,11 +60,14 @@ impl<I: SelectSyscall> SelectSyscall for NioSelectSyscall<I> {
         let mut t = if timeout.is_null() {
             u64::MAX
         } else {
-            unsafe {
-                u64::try_from((*timeout).tv_sec).expect("overflow")
-                    .saturating_mul(1_000)
-                    .saturating_add(u64::try_from((*timeout).tv_usec).expect("overflow").div_ceil(1_000))
-            }
+            let (sec, usec) = unsafe { ((*timeout).tv_sec, (*timeout).tv_usec) };
+            // a negative field is invalid for the native call too
+            let (Ok(sec), Ok(usec)) = (u64::try_from(sec), u64::try_from(usec)) else {
+                set_errno(libc::EINVAL);
+                return -1;
+            };
+            sec.saturating_mul(1_000)
+                .saturating_add(usec.div_ceil(1_000))
         };
         let mut o = timeval {
             tv_sec: 0,
